@@ -63,6 +63,7 @@ type Prog struct {
 	paramCalls      map[*ssa.Function]map[int]bool
 	supplyCache     map[[2]any]bool
 	helperCache     map[*ssa.Function]*BF
+	helperNilCache  map[*ssa.Function]*BF
 }
 
 func goEnv(v Variant) []string {
